@@ -77,7 +77,11 @@ class Lib(object):
                 raise Unsupported("attribute %s of exception object" % name)
             return
         if (o.oid, name) in st.heap or engine.field_sort(o, name):
-            yield st, engine.heap_get(st, o, name)
+            v = engine.heap_get(st, o, name)
+            if v is DELETED:
+                yield st.label("L%d:.%s deleted" % (engine.rel_line(node), name)), Raised(AttributeError, ExcObj(AttributeError))
+                return
+            yield st, v
             return
         if o.kind in ("joinlist", "list", "dict", "vlist"):
             yield st, BoundMethod(o, None, name)
@@ -1113,6 +1117,21 @@ class Lib(object):
                     else:
                         raise Unsupported("del on %r" % (o,))
             return res
+        if isinstance(t, ast.Attribute):
+            res = []
+            for st1, o in engine.ev(st, t.value):
+                if isinstance(o, Raised):
+                    res.append((st1, o))
+                elif isinstance(o, Obj):
+                    cur = engine.heap_get(st1, o, t.attr)
+                    if cur is DELETED:
+                        res.append((st1, Raised(AttributeError, ExcObj(AttributeError))))
+                    else:
+                        st1.heap[(o.oid, t.attr)] = DELETED
+                        res.append((st1, None))
+                else:
+                    raise Unsupported("del attribute of %r" % (o,))
+            return res
         raise Unsupported("del form (line %d)" % t.lineno)
 
     def with_stmt(self, engine, st, cm, optvars, node):
@@ -1226,6 +1245,16 @@ class Lib(object):
         engine.type_invariants(st, [res])
         st.trace.append(("Call", fv, argvl.z, res.z, kwargs))
         yield st, res
+
+
+class _Deleted(object):
+    """value of an instance attribute after `del obj.attr`"""
+
+    def __repr__(self):
+        return "<deleted>"
+
+
+DELETED = _Deleted()
 
 
 class VarArgs(object):
